@@ -147,6 +147,12 @@ class Game(AsyncMode):
         # TODO: Add timeout to wait
         await self._at_least_one_player_event.wait()
 
+        if self.ending and not self.player_list:
+            # end_game() was requested while the game was waiting for its first
+            # player (e.g. the add request was denied): the game ends without
+            # having started
+            return
+
         await self.machine.events.post_async('game_started')
         '''event: game_started
         desc: A new game has started.'''
@@ -491,6 +497,9 @@ class Game(AsyncMode):
         """
         self.ending = True
         self.end_ball()
+        # request_player_add() refuses while the game is ending: a game which is
+        # still waiting for its first player would wait for ever
+        self._at_least_one_player_event.set()
 
     def _game_ending_completed(self, **kwargs):
         del kwargs
